@@ -13,13 +13,15 @@ def _gen(ctx, seed, nsx, nloc):
     return [json.loads(x) for x in open(out)]
 
 
-def _rerun(ctx, rec):
+def _rerun(ctx, rec, before=()):
     vh = ctx.build(PKG)
     d = ctx.sub("replay")
     i, o = os.path.join(d, "in.ndjson"), os.path.join(d, "out.ndjson")
-    open(i, "w").write(json.dumps(rec) + "\n")
-    ctx.run([vh, "sysex-rerun", "-in", i, "-out", o], timeout=600)
-    new = json.loads(open(o).read())
+    with open(i, "w") as fh:       # the cases `before` are executed first, in the same fresh process
+        for b in list(before) + [rec]:
+            fh.write(json.dumps(b) + "\n")
+    ctx.run([vh, "sysex-rerun", "-in", i, "-out", o], timeout=1800)
+    new = json.loads(open(o).read().splitlines()[-1])
     bad = ctx.validate("Trace_Sysex", [new], shards=1)
     if bad and bad[0][1] and bad[0][1].get("genbug"):
         raise Machinery("record outside the property's domain / inconsistent bookkeeping: %s" % bad[0][1])
@@ -73,6 +75,7 @@ def _validate(ctx, recs):
         if info and info.get("genbug"):
             raise Machinery("generator/bookkeeping problem (not a violation): %s" % json.dumps(info)[:600])
         fails.append(Failure(signature(r, info), describe(r, info), {"family": "sysex", "record": _slim(r)}))
+        fails[-1].before = [_slim(x) for x in recs[max(0, idx - 400):idx]]
     fails.sort(key=lambda f: len(json.dumps(f.payload)))
     return fails
 
@@ -133,13 +136,13 @@ def run(ctx):
                for r in ([x for x in recs if x["ev"] == "mmc"][:1] + [x for x in recs if x["ev"] == "loc"][-1:])])
 
     def confirm(f):
-        ok, new, info = _rerun(ctx, f.payload["record"])
-        return ok
+        return _rerun(ctx, f.payload["record"])[0]
+    confirm.in_context = lambda before, f: _rerun(ctx, f.payload["record"], before)[0]
     ctx.report(fails, confirm)
 
 
 def replay(ctx, payload):
     rec = payload["payload"]["record"]
-    ok, new, info = _rerun(ctx, rec)
+    ok, new, info = _rerun(ctx, rec, payload["payload"].get("context") or ())
     print(json.dumps({"info": info})[:3000])
     return ok
